@@ -11,6 +11,8 @@ Obtained by introspecting the *imported* module (never by parsing source text):
                           `BeaconVersion.from_max_setting_enum(<absent key>)`
   regexVersion            BeaconVersion.REGEX_VERSION (code points) – the model's parser is written for exactly this text
   monthAbbr               the 12 month abbreviations `_strptime` uses for `%b` in the current (C) locale, lower-cased
+  decimalZeros            code point of the zero of every run of Unicode decimal digits (`\\d` / `int()`; measured, runs checked)
+  whitespace              every code point matched by `\\s` of a str pattern (measured)
 
 A table with a non-int/negative key, a non-str value, or a BeaconVersion whose attributes have an unexpected type raises
 (→ proof-obligation-broken), nothing is skipped.
@@ -120,6 +122,26 @@ def generate(repo: Path):
         raise ValueError(f"unexpected %b table {months!r}")
     out.append("def monthAbbr : List (List Nat) := [" + ", ".join(_txt(m.lower()) for m in months) + "]")
     out.append("")
+    # Unicode decimal digits (what `\\d` of a str pattern and `int()` accept): measured on `re` and `int`, they must come in
+    # aligned runs 0..9; the table holds the code point of each run's zero.
+    import re as _re
+
+    drx = _re.compile(r"\d")
+    digits = [c for c in range(0x110000) if drx.match(chr(c))]
+    zeros = [c for c in digits if int(chr(c)) == 0]
+    dset = set(digits)
+    for z in zeros:
+        for i in range(10):
+            if (z + i) not in dset or int(chr(z + i)) != i:
+                raise ValueError(f"decimal digits at U+{z:04X} are not an aligned run 0..9")
+    if len(zeros) * 10 != len(digits):
+        raise ValueError("decimal digits outside aligned runs of ten")
+    out.append("def decimalZeros : List Nat := [" + ", ".join(str(z) for z in zeros) + "]")
+    out.append("")
+    srx = _re.compile(r"\s")
+    spaces = [c for c in range(0x110000) if srx.match(chr(c))]
+    out.append("def whitespace : List Nat := [" + ", ".join(str(c) for c in spaces) + "]")
+    out.append("")
     out.append("end Gen.Version")
-    tables += ["unknownText", "regexVersion", "monthAbbr"]
+    tables += ["unknownText", "regexVersion", "monthAbbr", "decimalZeros", "whitespace"]
     return "Version.lean", "\n".join(out) + "\n", tables
